@@ -84,6 +84,7 @@ fn main() {
             let code = match args.get(2).map(|s| s.as_str()) {
                 Some("c11-leftrec") => props::c11::child_leftrec(args[3].parse().unwrap_or(6)),
                 Some("c12-depth") => props::c12::child_depth(&args[3..]),
+                Some("c19") => props::c19::child_native(&args[3..]),
                 Some("c20") => props::c20::child(&args[3..]),
                 other => {
                     eprintln!("unknown child job {:?}", other);
@@ -98,6 +99,7 @@ fn main() {
             let seed: u64 = args.get(4).and_then(|s| s.parse().ok()).unwrap_or(0);
             let shard: usize = args.get(5).and_then(|s| s.parse().ok()).unwrap_or(0);
             let v = match args.get(2).map(|s| s.as_str()) {
+                Some("c07") => props::c07::san_job(size, seed, shard),
                 Some("c12") => props::c12::san_job(size, seed, shard),
                 Some("c13") => props::c13::san_job(size, seed, shard),
                 Some("c19") => props::c19::san_job(size, seed, shard),
